@@ -19,6 +19,12 @@ package redistribute
 //@   opt trustpre=on
 //@   ensures err == nil && result != nil ==> forall a Int :: 0 <= a && a < seqlen(p.otherPrevShareholders()) ==> oldPkOf(r2b, prevAt(p, a)) == newPkOf(p)
 //@   ensures err == nil && result != nil ==> exists m V :: res(mpc.NewBaseShard(p.state.share, p.state.shareVerificationVector, m), 1) == nil && result == res(mpc.NewBaseShard(p.state.share, p.state.shareVerificationVector, m), 0)
+// The reference the old metadata is checked against: a PREVIOUS shareholder always uses its OWN previous shard (its
+// own view of the key is never replaced by what another party broadcasts); only a party without a previous shard
+// falls back to the configured trusted anchor's broadcast.
+//@   assert before "if trustedMSP != nil {": p.isPrevShareholder(p.ctx.HolderID()) ==> trustedMSP == p.prevShard.MSP() && trustedVerificationVector == p.prevShard.VerificationVector() && trustedZeroVerificationVector == p.state.zeroVerificationVector
+//@   assert before "if trustedMSP != nil {": !p.isPrevShareholder(p.ctx.HolderID()) && p.trustedAnchorID != 0 ==> trustedMSP == res(r2b.Get(p.trustedAnchorID), 0).PrevMSP && trustedVerificationVector == res(r2b.Get(p.trustedAnchorID), 0).PrevVerificationVector
+//@   assert before "if trustedMSP != nil {": !p.isPrevShareholder(p.ctx.HolderID()) && p.trustedAnchorID == 0 ==> trustedMSP == nil
 //@   loop range(p.otherPrevShareholders())#4
 //@     invariant forall a Int :: 0 <= a && a < $i ==> oldPkOf(r2b, prevAt(p, a)) == newPk
 //@     invariant newPk == newPkOf(p)
